@@ -51,10 +51,56 @@ def run(tier):
         n = sum(1 for l in lines if l.startswith('{"e":"rt"') and '"load1":0' in l)
         ck._distinct.update(("%s:%d" % (trace, i)).encode() for i in range(n * 6))
         ck.cov["evaluations"] += n * 5
+    strings_machine(ck, tier, wd, exe)
     ck.assumptions += ["string indices inside payloads are located by hook H3 (NiStringRef::Write) while Put()-ing a clone of the model's block",
                        "files of versions without a size table (Oblivion) are walked with the sizes measured by Put()",
                        "edit operations that crash on synthesised models are other properties' concern and are discarded here"]
     return ck.finish()
+
+
+def strings_machine(ck, tier, wd, exe):
+    """The header string table as a state machine (StringTable.tla): TLC checks the transcription of AddOrFindStringId /
+    FillStringRefs / UpdateHeaderStrings against the statements (indices inside the table, index designates the text, strings
+    once, none unused, true maximum length; with unknown blocks the table only grows) on every small table x indices x op
+    sequence, exports the cases, the harness runs them on a real NiHeader and TLC evaluates the same statements on the
+    recorded states and compares them with the transcription's (exact conformance; a difference is model drift)."""
+    configs = [(2, 1, 2)] if tier == "quick" else [(2, 2, 2), (3, 1, 2)]
+    for R, maxtab, L in configs:
+        cfg = os.path.join(wd, "strings_mc.cfg")
+        open(cfg, "w").write("SPECIFICATION Spec\nCONSTANTS R = %d\n MaxTab = %d\n L = %d\n Export = TRUE\nINVARIANT DesignOK\nINVARIANT Emit\nCHECK_DEADLOCK FALSE\n" % (R, maxtab, L))
+        cases = os.path.join(wd, "strings_cases.ndjson")
+        r = vlib.tlc("StringTableMC", cfg, workers=8, timeout=3000, export_to=cases, tag="c07-strings-mc", heap="8g")
+        ck.add_tlc("StringTableMC(R=%d,MaxTab=%d,L=%d)" % (R, maxtab, L), r, "string-table machine: transcription satisfies its statements on every case")
+        if r.rc != 0 or r.exported != r.distinct:
+            raise vlib.InfraError("StringTableMC: rc=%d exported %d of %d" % (r.rc, r.exported, r.distinct))
+        tr = os.path.join(wd, "strings_trace.ndjson")
+        rc, out, err = vlib.run_harness(exe, ["c07-strings", cases, tr], timeout=3000)
+        if rc != 0:
+            raise vlib.InfraError("c07-strings failed: " + err[-1500:])
+        r2, viols, n = vlib.validate_trace("StringTableTrace", tr, tag="c07-strings", timeout=3000, stack_mb=256)
+        ck.add_tlc("StringTableTrace", r2, "statements on the recorded states of a real NiHeader + exact conformance")
+        lines = open(tr).readlines()
+        nstr = sum(1 for x in lines if x.startswith('{"e":"strings"'))
+        if nstr + sum(1 for x in lines if x.startswith('{"e":"crash"')) * 500 < r.exported:
+            raise vlib.InfraError("c07-strings executed %d of %d cases" % (nstr, r.exported))
+        ck.cov["evaluations"] += n
+        ck.cov["traces_validated_against_impl"] += n
+        ck._distinct.update(("st%d:%d:%d" % (R, maxtab, i)).encode() for i in range(n))
+        seen = set()
+        for v in viols:
+            ev = json.loads(lines[v["viol"] - 1])
+            key = tuple(sorted(v["clauses"]))
+            if key in seen:
+                continue
+            seen.add(key)
+            ck.reject({"check": "C07", "machine": "strings", "clauses": sorted(v["clauses"])}, {"clauses": v["clauses"], "event": ev}, replay={"event": ev})
+        for x in r2.records:
+            if isinstance(x, dict) and "drift" in x:
+                ck.note_drift({"what": x.get("what"), "case": json.loads(lines[x["drift"] - 1]).get("c")})
+                break
+        if lines:
+            ck.sample({"string_table_case": json.loads(lines[len(lines) // 2]).get("c")})
+        os.remove(cases)
 
 
 def replay(path):
